@@ -185,6 +185,11 @@ func main() {
 		}
 	}
 	net.VerifGate = func(point string, p *net.Peer, key string) {
+		if p == nil {
+			// syncDAG has no peer at hand; in these scenarios only B receives pushes
+			atPoint("B:" + point)
+			return
+		}
 		for _, h := range hosts {
 			if h.Peer == p {
 				atPoint(h.Name + ":" + point)
@@ -280,6 +285,16 @@ func run(ctx context.Context, sc schedule, deadline time.Duration) outcome {
 			case "net":
 				b.NetDown()
 			case "restart":
+				b.Stop()
+			case "restart-held":
+				// B's process dies while one of its goroutines is parked at a held point: the network goes first,
+				// then the parked goroutine is let go (whatever it does next happens on a dead peer), then the database
+				// (Peer.Close closes the block service and the host, then waits for the in-flight handlers)
+				go func() {
+					time.Sleep(700 * time.Millisecond)
+					resetGates()
+				}()
+				b.NetDown()
 				b.Stop()
 			}
 			bDown = true
